@@ -2,8 +2,9 @@
 # Development regression: every seeded patch must be reported by at least one check,
 # every refactor patch by none. Extra dirs of refactor candidates may be given.
 cd /verif
+JV=${JV:-bin/jrpcvet}
 echo "== seeds"
-bin/jrpcvet -variants seeded/*/patch.diff | grep -v "\[C" | sed 's/^/MISSED /'
+$JV -variants seeded/*/patch.diff | grep -v "\[C" | sed 's/^/MISSED /'
 echo "== refactors"
-bin/jrpcvet -variants refactors/*/patch.diff "$@" | grep "\[C\|STALE\|FAILED\|LOAD" | sed 's/^/ALARM /'
+$JV -variants refactors/*/patch.diff "$@" | grep "\[C\|STALE\|FAILED\|LOAD" | sed 's/^/ALARM /'
 echo "== done"
